@@ -278,6 +278,32 @@ def cmd_codec(m, inp, out):
             except BaseException as ex:
                 py = {"ok": False, "pyexc": repr(ex)}
             e["py"] = py
+            # the same call through the documented wrappers clvm_rs.serde.deserialize / serialize
+            from clvm_rs import serde as S
+            fmt = {"deser_legacy": "legacy", "deser_backrefs": "backrefs", "deser_2026": "2026", "deser_auto": "auto"}[e["fn"]]
+            kw2 = {}
+            if e.get("opt_max") is not None:
+                kw2["max_atom_len"] = int(e["opt_max"])
+            if e.get("opt_strict") is not None:
+                kw2["strict"] = e["opt_strict"]
+            try:
+                node = S.deserialize(blob, fmt, **kw2)
+                pw = {"ok": True, "tree": tree_to_json(walk(node, True))}
+
+                def f(fm, **kw):
+                    try:
+                        return list(S.serialize(node, fm, **kw))
+                    except BaseException:
+                        return [999]
+                lk = {} if e.get("opt_level") is None else {"level": int(e["opt_level"])}
+                pw.update({"ser_legacy": f("legacy"), "ser_backrefs": f("backrefs"), "ser_2026": f("2026", **lk)})
+            except ViewError as ex:
+                pw = {"ok": False, "views": str(ex)}
+            except ValueError as ex:
+                pw = {"ok": False, "msg": ex.args[0] if ex.args else ""}
+            except BaseException as ex:
+                pw = {"ok": False, "pyexc": repr(ex)}
+            e["pyw"] = pw
         elif e["ev"] == "len":
             try:
                 e["py"] = {"ok": True, "len": m.serialized_length(blob)}
